@@ -145,18 +145,25 @@ func checkSaturatingTotals(p *Prog, r *Result, fns ...*FuncNode) {
 				}
 				n++
 				key := fmt.Sprintf("%s / saturating total #%d (%s += %s)", fn.Name, n, a.acc.Name(), exprStr(a.addend))
-				// the if statement that chooses between saturation and addition
+				// the test that chooses between saturation and addition: the saturating assignment runs when it holds, the
+				// addition when it does not (if/else, a tagless switch with a default, or an early continue)
 				why := "no `if acc == MaxInt || addend == MaxInt` choosing between saturation and addition"
-				inspectNoLit(body, func(y ast.Node) bool {
-					is, ok := y.(*ast.IfStmt)
-					if !ok || !(is.Body.Pos() <= sat.Pos() && sat.End() <= is.Body.End()) {
-						return true
+				cs, ok1 := pathConds(body, sat)
+				ca, ok2 := pathConds(body, a.at)
+				var test ast.Expr
+				if ok1 && ok2 {
+					for _, c1 := range cs {
+						for _, c2 := range ca {
+							if c1.Expr == c2.Expr && c1.Pos && !c2.Pos {
+								test = c1.Expr
+							}
+						}
 					}
-					eb, ok := is.Else.(*ast.BlockStmt)
-					if !ok || !(eb.Pos() <= a.at.Pos() && a.at.End() <= eb.End()) {
+					if test == nil && len(cs) > 0 {
 						why = "the addition is not the else-branch of the saturation test"
-						return true
 					}
+				}
+				if test != nil {
 					var disj []ast.Expr
 					var split func(e ast.Expr)
 					split = func(e ast.Expr) {
@@ -167,7 +174,7 @@ func checkSaturatingTotals(p *Prog, r *Result, fns ...*FuncNode) {
 						}
 						disj = append(disj, unparen(e))
 					}
-					split(is.Cond)
+					split(test)
 					accOK, addOK := false, false
 					for _, d := range disj {
 						be, ok := d.(*ast.BinaryExpr)
@@ -190,12 +197,11 @@ func checkSaturatingTotals(p *Prog, r *Result, fns ...*FuncNode) {
 					case accOK && addOK:
 						why = ""
 					case !accOK:
-						why = fmt.Sprintf("the test `%s` does not check the accumulator: once %s is saturated at MaxInt a later finite addend is added to it and it overflows to a negative total (the order comes from a map, so this depends on iteration order)", exprStr(is.Cond), a.acc.Name())
+						why = fmt.Sprintf("the test `%s` does not check the accumulator: once %s is saturated at MaxInt a later finite addend is added to it and it overflows to a negative total (the order comes from a map, so this depends on iteration order)", exprStr(test), a.acc.Name())
 					default:
-						why = fmt.Sprintf("the test `%s` does not check the addend: an unlimited (MaxInt) capacity is added to the running total and overflows", exprStr(is.Cond))
+						why = fmt.Sprintf("the test `%s` does not check the addend: an unlimited (MaxInt) capacity is added to the running total and overflows", exprStr(test))
 					}
-					return true
-				})
+				}
 				r.check2(why, "N3", key, p.pos(a.at), "saturates when either the running total or the addend is MaxInt")
 			}
 			return true
